@@ -13,7 +13,7 @@ const char *verif_property_id = "C18";
 const char *verif_rule =
     "tape -> scenario from the catalogue {context + endpoint + resources set-up and tear-down; GET request/response (CON, NON); PUT with payload; Block1 upload; Block2 download; "
     "observe register + notifications + cancel + resource deletion; async separate response; OSCORE exchange; URI / optlist helpers; .well-known/core with attributes; TCP session with "
-    "CSM and request; cache key / cache entry; context created with its listening address; Block1 upload by a scripted peer that sends no Size1}, scenario parameters (sizes, token lengths, option counts) and the index k (and optionally a second index k2 > k) of the request to "
+    "CSM and request; cache key / cache entry; context created with its listening address; Block1 upload by a scripted peer that sends no Size1; TCP request of 300..900 bytes (the PDU grows while it is received)}, scenario parameters (sizes, token lengths, option counts) and the index k (and optionally a second index k2 > k) of the request to "
     "coap_malloc_type()/coap_realloc_type() that returns NULL; the enumeration tier walks every k of every scenario with default parameters. Client and server are both libcoap, so the "
     "failing allocation hits whichever side performs it. Oracle: no sanitizer report, failed assertion or abort and the case returns; the harness follows the documented ownership rules "
     "(a PDU given to coap_send() is never touched again, other objects are released by their owner); after all contexts are freed the allocation table is empty, nothing was released "
@@ -148,7 +148,7 @@ bool request(Fx &f, coap_pdu_type_t type, coap_pdu_code_t code, const char *path
   return coap_send(f.session, pdu) != COAP_INVALID_MID;
 }
 
-const char *SC_NAMES[] = {"setup-teardown", "get-con", "get-non", "put-payload", "block1-upload", "block2-download", "observe", "async", "oscore", "uri-helpers", "well-known-core", "tcp", "cache", "context-with-listen-address", "block1-from-peer-without-size1"};
+const char *SC_NAMES[] = {"setup-teardown", "get-con", "get-non", "put-payload", "block1-upload", "block2-download", "observe", "async", "oscore", "uri-helpers", "well-known-core", "tcp", "cache", "context-with-listen-address", "block1-from-peer-without-size1", "tcp-large-messages"};
 const unsigned NSC = sizeof SC_NAMES / sizeof SC_NAMES[0];
 
 std::string oscore_conf(bool server) {
@@ -272,6 +272,16 @@ void run_scenario(unsigned sc, Tape &t, Fx &f) {
     request(f, COAP_MESSAGE_CON, COAP_REQUEST_CODE_GET, "r", token, -1, nullptr, false);
     f.w.run(f.w.now + 200000, 40000);
     break;
+  case 15: {
+    // messages on a stream transport that are larger than the buffer libcoap starts a message with: the PDU under construction has to grow
+    // while it is being received (server: the request, client: nothing large comes back)
+    if (!setup(f, COAP_PROTO_TCP, bm, nullptr, nullptr)) break;
+    f.w.run(f.w.now + 100, 20000);
+    Bytes pl = t.blob(300 + t.range(0, 600));
+    request(f, COAP_MESSAGE_CON, COAP_REQUEST_CODE_PUT, "p", token, -1, &pl, false);
+    f.w.run(f.w.now + 200000, 40000);
+    break;
+  }
   case 13: {
     // the listening address given to the constructor: the endpoint is created inside coap_new_context()
     coap_address_t la;
@@ -408,7 +418,7 @@ int verif_case(const uint8_t *tape, size_t tlen, Info *info) {
     // "the next operation with memory available succeeds" - on the objects that survived, not only on new ones: a plain GET on the same
     // UDP session is answered (after whatever is still being retransmitted has ended).  Not asked of the OSCORE and TCP scenarios,
     // where dropping the association / the connection is an admissible way of failing.
-    if (failed && f.setup_ok && sc != 8 && sc != 11 && sc != 13) {
+    if (failed && f.setup_ok && sc != 8 && sc != 11 && sc != 13 && sc != 15) {
       unsigned before = f.responses;
       bool sent = request(f, COAP_MESSAGE_CON, COAP_REQUEST_CODE_GET, "r", {0xcb, 0x01}, -1, nullptr, false);
       f.w.steps = 0;
